@@ -118,8 +118,11 @@ func TestVerifC20Inputs(t *testing.T) {
 			case "body":
 				ps := s.alive()
 				p := ps[c.Src.Int("body.proc", 0, len(ps)-1)]
-				s.run(p, c.Src.Pick("body.kind", "tick", "tick", "health", "recovery", "lagcheck"))
+				kind := c.Src.Pick("body.kind", "tick", "tick", "health", "recovery", "lagcheck")
+				c.Flight() // a panic in a goroutine the daemon spawned kills the process: the script so far is the replay
+				s.run(p, kind)
 			case "round":
+				c.Flight()
 				s.round(true)
 			case "unregister":
 				h := pickHost("unregister.host")
